@@ -32,10 +32,21 @@ inline bool IsInteger(K k) { return k >= K::I8 && k <= K::U64; }
 struct Key
 {
 	bool isInt = false;
+	bool cstr = false;       // string key handed to the library as `const char*` (a literal in user code)
+	uint8_t ikind = 0;       // integer key type in user code: 0 int64_t, 1 uint64_t (value in `u`), 2 int32_t, 3 int8_t
 	std::string s;
 	int64_t i = 0;
-	bool operator==(const Key& o) const { return isInt == o.isInt && (isInt ? i == o.i : s == o.s); }
-	std::string str() const { return isInt ? std::to_string(i) : s; }
+	uint64_t u = 0;
+	// integer keys are equal when their mathematical values are (the document does not record the C++ type)
+	bool negative() const { return ikind != 1 && i < 0; }
+	uint64_t magnitude() const { return ikind == 1 ? u : static_cast<uint64_t>(i); }
+	bool operator==(const Key& o) const
+	{
+		if (isInt != o.isInt) return false;
+		if (!isInt) return s == o.s;
+		return negative() == o.negative() && magnitude() == o.magnitude();
+	}
+	std::string str() const { return isInt ? (ikind == 1 ? std::to_string(u) : std::to_string(i)) : s; }
 };
 
 struct ReqOp
@@ -103,9 +114,26 @@ struct DynNode
 	template <class A> void Serialize(A& ar);          // object scope
 	template <class A> void SerializeItems(A& ar);     // array scope
 	template <class A, class TKey> void Member(A& ar, const TKey& key, DynNode& c);
+	template <class A, class F> static void WithKey(const Key& k, F&& f)
+	{
+		if (!k.isInt)
+		{
+			// (the MessagePack archive accepts string keys as std::string / std::string_view only: `const char*` does not compile there)
+			if constexpr (A::archive_type != ArchiveType::MsgPack) { if (k.cstr) { f(k.s.c_str()); return; } }
+			f(k.s);
+			return;
+		}
+		switch (k.ikind)
+		{
+		case 1: f(k.u); break;
+		case 2: f(static_cast<int32_t>(k.i)); break;
+		case 3: f(static_cast<int8_t>(k.i)); break;
+		default: f(k.i); break;
+		}
+	}
 	template <class A> void MemberAt(A& ar, size_t m)
 	{
-		if (keys[m].isInt) Member(ar, keys[m].i, items[m]); else Member(ar, keys[m].s, items[m]);
+		WithKey<A>(keys[m], [&](const auto& key) { Member(ar, key, items[m]); });
 	}
 	template <class A> bool Item(A& ar, DynNode& c);
 	template <class A> void RunProgram(A& ar);
@@ -161,7 +189,7 @@ inline void Repr(const DynNode& n, std::string& out)
 		for (size_t i = 0; i < n.items.size(); ++i)
 		{
 			out += n.keys[i].isInt ? "#" : "$";
-			if (n.keys[i].isInt) out += std::to_string(n.keys[i].i); else HexAppend(out, n.keys[i].s.data(), n.keys[i].s.size());
+			if (n.keys[i].isInt) out += n.keys[i].str(); else HexAppend(out, n.keys[i].s.data(), n.keys[i].s.size());
 			out.push_back('=');
 			Repr(n.items[i], out);
 			out.push_back(',');
@@ -327,7 +355,7 @@ void DynNode::RunProgram(A& ar)
 				}
 				break;
 			case ReqOp::GetAbsent:
-				if (op.key.isInt) Absent(ar, op.key.i, op, r); else Absent(ar, op.key.s, op, r);
+				WithKey<A>(op.key, [&](const auto& key) { Absent(ar, key, op, r); });
 				break;
 			case ReqOp::VisitKeys:
 				ar.VisitKeys([&r](auto&& k) { r.keys.push_back(Convert::ToString(k)); });
